@@ -4,8 +4,9 @@
    transaction / TransactionGroup in model/EvalGroup.v; closed form: model/EvalSpec.v
    (spec_min_balance, bwp).  The resource counters (assets, apps, schema, extra pages, boxes)
    are fields of the account record; asset creation / opt-in / close-out / destroy change the
-   asset counters, the app / schema / box counters vary through the initial states only
-   (application calls are excluded from this version). *)
+   asset counters; application creation / opt-in / close-out / delete change the app, schema
+   and extra-page counters, box_create / box_del / box_resize the box counters of the
+   application account (programs = any script of such operations and inner transactions). *)
 From Coq Require Import NArith ZArith List Bool String.
 Import ListNotations.
 From Verif.lib Require Import Term.
@@ -30,6 +31,13 @@ Theorem C21_minbal_asset_step : forall P x,
 Proof. exact spec_min_balance_asset_step. Qed.
 Print Assumptions C21_minbal_asset_step.
 
+Theorem C21_minbal_box_step : forall P x bytes,
+  spec_min_balance P (set_box_counts x (a_boxes x + 1) (a_boxbytes x + bytes)) < 2 ^ 64 - 1 ->
+  spec_min_balance P (set_box_counts x (a_boxes x + 1) (a_boxbytes x + bytes)) =
+  spec_min_balance P x + p_boxflat P + p_boxbyte P * bytes.
+Proof. exact spec_min_balance_box_step. Qed.
+Print Assumptions C21_minbal_box_step.
+
 (* the property: after an accepted group every account the group wrote, other than the fee
    sink, the rewards pool and the state proof sender, is empty or holds (with pending
    rewards) at least its requirement *)
@@ -53,7 +61,7 @@ Print Assumptions C21_put_is_modified.
 
 (* the oracle on the implementation's observations *)
 Theorem C21_spec_ok_sound : forall P lvl sink pool sps before after,
-  changed_ok P lvl sink pool sps before after = true -> Forall2 (entry_ok P lvl sink pool sps) before after.
+  changed_ok P lvl sink pool sps before after = true -> Forall (entry_ok P lvl sink pool sps before) after.
 Proof. exact changed_ok_sound. Qed.
 Print Assumptions C21_spec_ok_sound.
 
